@@ -65,3 +65,21 @@ Example C08_spec_vectors :
   spec_bytes 0 test_in = perm 0 test_in /\ spec_bytes 4 test_in = perm 4 test_in /\ spec_bytes 12 test_in = test_in /\
   spec_bytes 0 test_out8 = perm 0 test_out8 /\ spec_bytes 7 test_out12 = perm 7 test_out12.
 Proof. vm_compute. repeat split. Qed.
+
+(* Spec.Perm.perm - the function the kernels are proved to compute - is a bijection of the valid 40-byte states for every starting
+   round: Proofs/PermInvP.v gives an explicit inverse (inverse linear layer as XORs of rotations, inverse substitution layer in
+   algebraic normal form; the four layer identities are decided by the reflective engine in Sym/PermInv.v) *)
+From AsconV Require Import Proofs.AeadP Proofs.PermInvP.
+Theorem C08_spec_perm_bijective : forall first s, length s = 40 -> bytes_ok s ->
+  perm_inv first (perm first s) = s /\ perm first (perm_inv first s) = s /\ length (perm_inv first s) = 40 /\ bytes_ok (perm_inv first s).
+Proof.
+  intros first s L B.
+  exact (conj (perm_inv_perm first s L B) (conj (perm_perm_inv first s L B) (conj (perm_inv_len first s) (perm_inv_ok first s)))).
+Qed.
+Print Assumptions C08_spec_perm_bijective.
+Theorem C08_spec_perm_injective : forall first s1 s2, length s1 = 40 -> bytes_ok s1 -> length s2 = 40 -> bytes_ok s2 ->
+  perm first s1 = perm first s2 -> s1 = s2.
+Proof. exact perm_injective. Qed.
+Print Assumptions C08_spec_perm_injective.
+Example C08_perm_inv_vectors : perm_inv 0 test_out12 = test_in /\ perm_inv 4 test_out8 = test_in.
+Proof. exact perm_inv_vector. Qed.
